@@ -187,7 +187,10 @@ func sameValue(real, want MalType) bool {
 }
 
 func Harness_try() {
-	prog := tryForm("t", vrt.Param("nest", 1))
+	runAndCompare(tryForm("t", vrt.Param("nest", 1)))
+}
+
+func runAndCompare(prog MalType) {
 	m := &ref.Machine{Fuel: 400}
 	rg := refGlobals(m)
 	m.Trace = nil
@@ -232,4 +235,30 @@ func RegisterBuiltins(e EnvType) {
 	call.CallOverrideFN(e, "fail!", fail_BANG)
 	call.CallOverrideFN(e, "panic-err!", panicerr_BANG)
 	call.CallOverrideFN(e, "panic-val!", panicval_BANG)
+}
+
+// Harness_try_tail: an outer try with catch and finally whose handler ends (in tail
+// position, directly or through do/let/if or a call) in another try with its own,
+// different or absent, finally: every pending finally runs exactly once, innermost first.
+func Harness_try_tail() {
+	inner := []MalType{sym("try"), fragment("ib", 0, "e")}
+	if vrt.Bool("icatch") {
+		inner = append(inner, lst(sym("catch"), sym("q"), fragment("ih", 0, "q")))
+	}
+	if vrt.Bool("ifinally") {
+		inner = append(inner, lst(sym("finally"), lst(sym("trace!"), 201)))
+	}
+	var tail MalType = List{Val: inner}
+	switch vrt.Concrete(vrt.Choice("via", 4)) {
+	case 1:
+		tail = lst(sym("do"), lst(sym("trace!"), 7), tail)
+	case 2:
+		tail = lst(sym("let"), Vector{Val: []MalType{sym("z"), 1}}, tail)
+	case 3:
+		tail = lst(sym("if"), true, tail)
+	}
+	prog := lst(sym("try"), fragment("ob", 0, "e"),
+		lst(sym("catch"), sym("e"), tail),
+		lst(sym("finally"), lst(sym("trace!"), 101)))
+	runAndCompare(prog)
 }
